@@ -306,6 +306,31 @@ class Evaluator:
         self._loop_counter = 0
         self._depth = 0
         self._stack = ()
+        self.assume = None        # optional callback: condition term -> True / False / None (partial evaluation)
+        self.self_class = None    # qualified class name: `self.method(...)` of that class may be inlined
+
+    def _decide(self, c):
+        """Decide a condition term under the current assumptions (None = unknown)."""
+        if self.assume is None:
+            return None
+        if c == TRUE:
+            return True
+        if c == FALSE:
+            return False
+        if c[0] == "op" and c[1] == "not":
+            d = self._decide(c[2][0])
+            return None if d is None else (not d)
+        if c[0] == "op" and c[1] == "and":
+            ds = [self._decide(x) for x in c[2]]
+            if any(d is False for d in ds):
+                return False
+            return True if all(d is True for d in ds) else None
+        if c[0] == "op" and c[1] == "or":
+            ds = [self._decide(x) for x in c[2]]
+            if any(d is True for d in ds):
+                return True
+            return False if all(d is False for d in ds) else None
+        return self.assume(c)
 
     # -- entry points -------------------------------------------------------
     def run(self, fnode, env=None, args=None):
@@ -452,6 +477,11 @@ class Evaluator:
             return None
         if isinstance(s, ast.If):
             c = self._e(s.test, env, pc, res)
+            d = self._decide(c)
+            if d is True:
+                return self._block(s.body, dict(env), pc, res)
+            if d is False:
+                return self._block(s.orelse, dict(env), pc, res)
             a = self._block(s.body, dict(env), pc + ((c, True),), res)
             b = self._block(s.orelse, dict(env), pc + ((c, False),), res)
             return self._join(c, a, b)
@@ -639,6 +669,9 @@ class Evaluator:
             return parts[0] if len(parts) == 1 else ("op", "and", tuple(parts))
         if isinstance(n, ast.IfExp):
             c = self._e(n.test, env, pc, res)
+            d = self._decide(c)
+            if d is not None:
+                return self._e(n.body if d else n.orelse, env, pc, res)
             a = self._e(n.body, env, pc, res)
             b = self._e(n.orelse, env, pc, res)
             return a if a == b else ("ite", c, a, b)
@@ -851,14 +884,20 @@ class Evaluator:
             cand = self.project.funcs.get(q)
             if cand is not None and cand.qual not in self._stack and not _is_generator(cand.node):
                 target = cand
+        if target is None and self.self_class and self.project is not None and f[0] == "attr" and f[1] == ("sym", "self"):
+            cand = self.project.funcs.get(self.self_class + "." + f[2])
+            if cand is not None and cand.qual not in self._stack and not _is_generator(cand.node) \
+                    and not any((dotted(d) or "").endswith(("property", "contextmanager", "classmethod", "staticmethod")) for d in cand.node.decorator_list):
+                target = cand
+                args = [("sym", "self")] + list(args)
         if target is not None and self._depth < self.max_inline_depth and not any(a[0] == "star" for a in args):
-            r = self._inline(target, args, kws)
+            r = self._inline(target, args, kws, res, pc)
             if r is not None:
                 ev.extra = r
                 return r
         return t
 
-    def _inline(self, func, args, kws):
+    def _inline(self, func, args, kws, res=None, pc=()):
         fnode = func.node if hasattr(func, "node") else func
         a = fnode.args
         params = [x.arg for x in a.posonlyargs + a.args]
@@ -876,6 +915,8 @@ class Evaluator:
                            self.local_module, self.no_inline)
         sub_ev._depth = self._depth + 1
         sub_ev._stack = self._stack + ((func.qual,) if hasattr(func, "qual") else ())
+        sub_ev.assume = self.assume
+        sub_ev.self_class = self.self_class
         for p in params:
             if p not in binding:
                 if p in defaults:
@@ -883,8 +924,17 @@ class Evaluator:
                 else:
                     return None
         r = sub_ev.run(fnode, args=binding)
-        if r.yields or len(r.returns) == 0:
+        if r.yields:
             return None
+        if res is not None:
+            # what the helper does belongs to the caller's trace
+            for e in r.events:
+                if e.kind in ("call", "store", "raise", "del", "with"):
+                    res.events.append(Event(e.kind, e.term, e.node, pc + e.pc, e.extra))
+        if len(r.returns) == 0:
+            if any(e.kind == "raise" for e in r.events):
+                return ("op", "never-returns", ())
+            return NONE if res is not None else None
         # fold returns into an ite chain by their path conditions
         if len(r.returns) == 1:
             return r.returns[0][1]
